@@ -57,6 +57,36 @@ func main() {
 		if len(opc) != 16 {
 			continue
 		}
+		// the same K and RAND under another operator constant, then the first one again: results may depend only on the arguments
+		op2 := ev.Corner16(r)
+		for _, o := range [][]byte{op2, op} {
+			var oc []byte
+			pp := ev.Catch(func() { oc, err = milenage.GenerateOPC(k, o) })
+			mA, mS := make([]byte, 8), make([]byte, 8)
+			r2, c2, i2, a2, s2 := make([]byte, 8), make([]byte, 16), make([]byte, 16), make([]byte, 6), make([]byte, 6)
+			pp += ev.Catch(func() { e1 = milenage.F1(oc, k, rnd, sqnNet, amf, mA, mS) })
+			pp += ev.Catch(func() { e2 = milenage.F2345(oc, k, rnd, r2, c2, i2, a2, s2) })
+			emit(ev.M{"ev": "F", "k": ev.Ints(k), "op": ev.Ints(o), "rand": ev.Ints(rnd), "sqn": ev.Ints(sqnNet), "amf": ev.Ints(amf),
+				"opc": ev.Ints(oc), "macA": ev.Ints(mA), "macS": ev.Ints(mS), "res": ev.Ints(r2), "ck": ev.Ints(c2),
+				"ik": ev.Ints(i2), "ak": ev.Ints(a2), "akStar": ev.Ints(s2), "err": err != nil || e1 != nil || e2 != nil || pp != ""})
+		}
+		// every subset of the five outputs of f2..f5* requested on its own (nil = not requested)
+		for mask := 1; mask < 32; mask++ {
+			if b > 1 && mask%5 != b%5 {
+				continue // all 31 subsets for the first two base vectors, a sample afterwards
+			}
+			bufs := [][]byte{make([]byte, 8), make([]byte, 16), make([]byte, 16), make([]byte, 6), make([]byte, 6)}
+			args := make([][]byte, 5)
+			for j := 0; j < 5; j++ {
+				if mask&(1<<uint(j)) != 0 {
+					args[j] = bufs[j]
+				}
+			}
+			var e3 error
+			pp := ev.Catch(func() { e3 = milenage.F2345(opc, k, rnd, args[0], args[1], args[2], args[3], args[4]) })
+			emit(ev.M{"ev": "Fsub", "k": ev.Ints(k), "opc": ev.Ints(opc), "rand": ev.Ints(rnd), "mask": mask, "res": ev.Ints(args[0]), "ck": ev.Ints(args[1]),
+				"ik": ev.Ints(args[2]), "ak": ev.Ints(args[3]), "akStar": ev.Ints(args[4]), "err": e3 != nil || pp != ""})
+		}
 
 		gen := func(sqn []byte) []byte {
 			autn, gik, gck, gak, gres := make([]byte, 16), make([]byte, 16), make([]byte, 16), make([]byte, 6), make([]byte, 8)
